@@ -733,8 +733,10 @@ class DLC(utils.EventEmitter):
             )
 
             rx_credits_needed = 0
-            if not self.tx_buffer:
-                self.drained.set()
+
+        # (checked here and not in the loop: a write of no bytes sends nothing)
+        if not self.tx_buffer:
+            self.drained.set()
 
     # Stream protocol
     def write(self, data: bytes | str) -> None:
